@@ -38,7 +38,8 @@ class C19(Check):
     stub = ["clocks (SimClock; _time_used is computed from time.time())", "global PRNGs seeded by the run (shuffle, validation sampling)"]
     rule = ("schedule = labelled learning set (2-4 classes, 30-80 samples, 2-3 dims, optional unlabelled samples), split percentage, even / "
             "uneven split, shuffle, standard or dimension-wise learning with small levels, then <= 5 calls of __call__ / test_data / evaluate "
-            "with fresh data sets inside, partly outside or entirely outside the learned range, with or without unlabelled samples. A state "
+            "with fresh data sets inside, partly outside or entirely outside the learned range, with or without unlabelled samples, or with a "
+            "deep copy of the object's own (already scaled) learning / testing piece. A state "
             "is (learning configuration class, sequence of call kinds with the numbers of classified samples); distinct_nontrivial counts "
             "distinct states after a call")
     expected_probes = ["user_specified_range", "call_in_range", "call_partly_out", "all_out_refused", "unlabelled_set_aside", "test_data", "reclassified_earlier_data", "own_scaled_piece"]
